@@ -27,10 +27,13 @@
    * a user task is an id + a fixed behaviour (returns / panics); its body runs when the environment
      sends PFinish (a task that never finishes = the event never comes).
 
-   Two flags pin the behaviour BEFORE the two `fix:` commits in this file:
+   Three flags pin the behaviour BEFORE the three `fix:` commits in this file:
      i_fixa = false : the above-core exit does not require initGo < totalGo - timeoutGroup.size()
      i_fixb = false : a worker leaving by its idle timer never performs closing->stopped + cancel
-   (used only for the refutation witnesses; the lock-step runs use true/true = the code as it is). *)
+     i_fixc = false : Submit executes `task = &taskWrapper{t: task}` inside its spin loop (one more wrapper
+                      layer per retry; a long wait nested millions of layers and the run overflowed the stack)
+                      instead of once, in front of the loop
+   (used only for the refutation witnesses; the lock-step runs use true/true/true = the code as it is). *)
 From Ekit Require Import Common Conc.
 
 Inductive pstate := SCreated | SRunning | SClosing | SStopped | SLocked.
@@ -44,7 +47,7 @@ Definition pstate_eqb (a b : pstate) : bool :=
 
 Inductive perr := PENone | PEInvalid | PEClosing | PEStopped | PEStarted | PENotRunning | PECtx.
 
-(* a submitted task: identity, number of taskWrapper layers (Submit wraps once per loop iteration),
+(* a submitted task: identity, number of taskWrapper layers (1 now; before the third fix one per loop iteration),
    behaviour of the user function *)
 Record task := mkTask { tk_id : nat; tk_depth : nat; tk_panics : bool }.
 Definition task0 : task := mkTask 0 0 false.
@@ -222,7 +225,8 @@ Record params := mkPar {
   i_cap : Z;                             (* queueSize *)
   i_rn : Z; i_rd : Z;                    (* queueBacklogRate = i_rn / i_rd, i_rd > 0 *)
   i_fixa : bool; i_fixb : bool;          (* true/true = the code as it is now *)
-  i_base : nat                           (* tids >= i_base are workers, tids below are client calls *)
+  i_base : nat;                          (* tids >= i_base are workers, tids below are client calls *)
+  i_fixc : bool                          (* true = Submit wraps the task once, before its loop *)
 }.
 
 (* what one step does to the OTHER goroutines *)
@@ -298,14 +302,15 @@ Definition unwind (th : thr) : thr :=
 Definition pstep0 (P : params) (s : shared) (th : thr) : option pout :=
   match pc th with
   (* ---- Submit *)
-  | SbNil => stay s (goto (if l_nil th then SbRetInvalid else SbFor) th)
+  | SbNil => stay s (goto (if l_nil th then SbRetInvalid else if i_fixc P then SbWrap else SbFor) th)
   | SbRetInvalid => fin s (RSubmit PEInvalid) []
   | SbFor => stay s (goto SbChkClosing th)
   | SbChkClosing => stay s (goto (if pstate_eqb (s_state s) SClosing then SbRetClosing else SbChkStopped) th)
   | SbRetClosing => fin s (RSubmit PEClosing) [GRej (tid_of th)]
-  | SbChkStopped => stay s (goto (if pstate_eqb (s_state s) SStopped then SbRetStopped else SbWrap) th)
+  | SbChkStopped =>
+    stay s (goto (if pstate_eqb (s_state s) SStopped then SbRetStopped else if i_fixc P then SbTry1 else SbWrap) th)
   | SbRetStopped => fin s (RSubmit PEStopped) [GRej (tid_of th)]
-  | SbWrap => stay s (goto SbTry1 (set_task (wrap_task (l_task th)) th))
+  | SbWrap => stay s (goto (if i_fixc P then SbFor else SbTry1) (set_task (wrap_task (l_task th)) th))
   | SbTry1 => stay s (goto TsCas (set_second false th))
   | SbIf1 => stay s (goto (if l_ok th || is_err (l_err th) then SbRet1 else SbTry2) th)
   | SbRet1 => fin s (RSubmit (l_err th)) [if is_err (l_err th) then GRej (tid_of th) else GAcc (tid_of th)]
